@@ -74,3 +74,27 @@ def exact_metric_record(G, hkls, path):
         q.append([list(h), a11 * h[0] * h[0] + a22 * h[1] * h[1] + a33 * h[2] * h[2]
                   + 2 * a23 * h[1] * h[2] + 2 * a13 * h[0] * h[2] + 2 * a12 * h[0] * h[1]])
     return {"G": list(G), "path": list(path), "det": det, "adj": adj, "q": q}
+
+
+def as_container(x, k):
+    """the same numbers in different containers (list, tuple, float array): the API accepts all of them"""
+    import numpy as np
+    # documented argument form is a list; numpy arrays are what callers pass in practice; tuples are not promised
+    if k % 2 == 0:
+        return list(x)
+    return np.array(x, dtype=float)
+
+
+def twice(f, *args):
+    """call f twice on the SAME argument objects: a function that mutates its input or answers from a stale cache
+    gives a different second answer; returns (first result, text or None)"""
+    import numpy as np
+    r1 = f(*args)
+    r2 = f(*args)
+    try:
+        a1 = [np.asarray(q, dtype=float) for q in (r1 if isinstance(r1, tuple) else (r1,))]
+        a2 = [np.asarray(q, dtype=float) for q in (r2 if isinstance(r2, tuple) else (r2,))]
+        same = len(a1) == len(a2) and all(p.shape == q.shape and np.array_equal(p, q, equal_nan=True) for p, q in zip(a1, a2))
+    except Exception:
+        same = True
+    return r1, (None if same else "%s gives a different result when called a second time with the same argument objects" % getattr(f, "__name__", "function"))
